@@ -249,7 +249,7 @@ func inScope(f fact, q *ssa.BasicBlock) bool {
 }
 
 // prove want >= 0 at block q as a sum of at most three in-scope facts (unit coefficients) plus non-negative slack.
-func (a *linAn) prove(want form, q *ssa.BasicBlock) (bool, string) {
+func (a *linAn) prove0(want form, q *ssa.BasicBlock) (bool, string) {
 	if len(want.t) == 0 {
 		return want.c >= 0, "constant"
 	}
@@ -291,6 +291,89 @@ func (a *linAn) prove(want form, q *ssa.BasicBlock) (bool, string) {
 		}
 	}
 	return false, ""
+}
+
+// prove tries prove0 and, failing that, case-splits on a merge phi (not loop-carried) occurring in want:
+// the claim is proved for each incoming value at the corresponding predecessor.
+func (a *linAn) prove(want form, q *ssa.BasicBlock) (bool, string) {
+	return a.proveD(want, q, 0)
+}
+
+func (a *linAn) proveD(want form, q *ssa.BasicBlock, depth int) (bool, string) {
+	if ok, why := a.prove0(want, q); ok {
+		return true, why
+	}
+	if depth >= 2 {
+		return false, ""
+	}
+	var names []string
+	for k := range want.t {
+		names = append(names, k)
+	}
+	sort.Strings(names)
+	for _, name := range names {
+		p := a.phiByName(name)
+		if p == nil {
+			continue
+		}
+		b := p.Block()
+		if !(b == q || b.Dominates(q)) {
+			continue
+		}
+		loop := false
+		for i := range p.Edges {
+			if b.Dominates(b.Preds[i]) {
+				loop = true
+			}
+		}
+		if loop {
+			continue
+		}
+		all := true
+		var whys []string
+		for i, e := range p.Edges {
+			w := form{c: want.c, t: map[string]int64{}}
+			for k, v := range want.t {
+				if k != name {
+					w.t[k] = v
+				}
+			}
+			w = addF(w, scale(a.lin(e), want.t[name]), 1)
+			ok, why := a.proveD(w, b.Preds[i], depth+1)
+			if !ok {
+				all = false
+				break
+			}
+			whys = append(whys, why)
+		}
+		if all {
+			return true, "case split on " + name + ": " + strings.Join(dedup(whys), " | ")
+		}
+	}
+	return false, ""
+}
+
+func scale(f form, k int64) form {
+	r := form{c: f.c * k, t: map[string]int64{}}
+	for s, v := range f.t {
+		r.t[s] = v * k
+	}
+	return r
+}
+
+func (a *linAn) phiByName(name string) *ssa.Phi {
+	for _, b := range a.fn.Blocks {
+		for _, in := range b.Instrs {
+			p, ok := in.(*ssa.Phi)
+			if !ok {
+				break
+			}
+			if p.Name() == name && isInt(p.Type()) {
+				return p
+			}
+		}
+	}
+	return nil
 }
 
 func isSignedInt(t types.Type) bool { return isInt(t) && !isUnsigned(t) }
